@@ -1297,14 +1297,25 @@ def run_path(harness, config, prefix=None, prefix_model=None, mode="sym", values
     _CTX = c
     prof = None
     if trace_functions and repo_root:
+        # functions of the tree under test entered on this path (sys.monitoring: each code
+        # location reports once and is then disabled, so the overhead is negligible)
         root = repo_root.rstrip("/") + "/tradingenv"
+        mon = sys.monitoring
+        tool = mon.PROFILER_ID
+        try:
+            mon.use_tool_id(tool, "symx")
+        except ValueError:
+            pass
 
-        def prof(frame, event, arg):
-            if event == "call":
-                fn = frame.f_code.co_filename
-                if fn.startswith(root):
-                    c.functions.add("%s:%s" % (fn[len(root) + 1:], frame.f_code.co_qualname))
-        sys.setprofile(prof)
+        def on_start(code, offset):
+            fn = code.co_filename
+            if fn.startswith(root):
+                c.functions.add("%s:%s" % (fn[len(root) + 1:], code.co_qualname))
+            return mon.DISABLE
+        mon.register_callback(tool, mon.events.PY_START, on_start)
+        mon.set_events(tool, mon.events.PY_START)
+        mon.restart_events()
+        prof = True
     try:
         harness(c, config)
     except PathInfeasible:
@@ -1332,6 +1343,7 @@ def run_path(harness, config, prefix=None, prefix_model=None, mode="sym", values
         c.obligations.append(ob)
     finally:
         if prof is not None:
-            sys.setprofile(None)
+            sys.monitoring.set_events(sys.monitoring.PROFILER_ID, 0)
+            sys.monitoring.register_callback(sys.monitoring.PROFILER_ID, sys.monitoring.events.PY_START, None)
         _CTX = prev
     return c
